@@ -84,6 +84,9 @@ func (c *Connack) Decode(src []byte) (int, error) {
 		return total, err
 	}
 
+	// ignore bytes that follow the packet
+	src = limitToPacket(src)
+
 	// read connack flags
 	connackFlags, n, err := readUint8(src[total:], CONNACK)
 	total += n
